@@ -254,6 +254,13 @@ def run_one(rec, G, tag, structural, rounds, named=False):
                         rec.violation('contract:%s' % p[0], '_finalize_parse_info contract',
                                       diff.case_dict(b, text, entry, pos, True, tag=str(tag)), p[1], p[2])
                     del problems[:]
+                if o.outcome[0] == 'partial':
+                    # the same call with fullparse=False returns the partial result as a value: every
+                    # span in it is finalised (line / column), also for instances that reach beyond the
+                    # place where the match ended (captured by a lookahead, stepped back over)
+                    diff.compare(rec, b, text, entry, pos, False, monitors=('value', 'span'),
+                                 extra_case=dict(tag=str(tag), fullparse_false=True))
+                    rec.count('fullparse_false_calls')
                 if structural and o.outcome[0] in ('value', 'partial'):
                     probs = errcheck.check_spans(b.g, text, o.value, structural=True)
                     rec.count('structural_trees_checked')
@@ -263,6 +270,29 @@ def run_one(rec, G, tag, structural, rounds, named=False):
     rec.count('finalize_contract_evaluations', counter.n.get('_finalize_parse_info', 0))
     rec.sample(dict(description=desc, inputs=len(ins), tag=str(tag)), limit=2)
     b.cleanup()
+
+
+def run_beyond(rec, quick):
+    """Instances that end BEYOND the place where the match ended -- captured by a lookahead whose value
+    is kept, or stepped back over by Backtrack -- with both values of fullparse and every offset: their
+    spans are finalised like any other (index, line, column)."""
+    from . import c08
+    for tag, G in c08.curated():
+        if 'lookahead-class' not in tag and 'backtrack-class' not in tag:
+            continue
+        b = diff.build(rec, G)
+        if b is None:
+            continue
+        rec.count('descriptions')
+        for text in work.inputs_for('a<>!', 5 if quick else 6):
+            for entry in (None,):
+                for pos in range(0, len(text) + 1):
+                    for fp in (True, False):
+                        r = diff.compare(rec, b, text, entry, pos, fp, monitors=('value', 'span'), extra_case=dict(tag='beyond-' + tag))
+                        if r is not None and r[0][0] in ('value', 'partial') and count_spanned(r[0][1]) >= 1:
+                            rec.nontrivial((tag, text, pos, fp))
+                            rec.count('beyond_the_match_trees')
+        b.cleanup()
 
 
 def run_chains(rec):
@@ -347,6 +377,8 @@ def run_shard(rec):
         metaparser_structure(rec, quick)
     if rec.shard == 1:
         run_chains(rec)
+    if rec.shard == 2:
+        run_beyond(rec, quick)
 
 
 def replay(rec, rep):
